@@ -80,6 +80,13 @@ def run(ctx):
             except Exception as ex:
                 ctx.fail("== between constructors raised", {**desc, "constructor": nm}, got=repr(ex)); continue
             ctx.check(same, "curves from two constructors are not ==", {**desc, "constructors": (names[0], nm)})
+    # ---- two distinct control points with the same coordinates are two vertices
+    arch = [[(0, 0), (1, 2), (2, 0)], [(2, 0), (2, 2)], [(2, 2), (1, 2)], [(1, 2), (0, 2)], [(0, 2), (0, 0)]]
+    exp_v = core.dpts(drv.ask("vertices " + core.ejordan_ctrl(arch)))
+    for how in ("ctrlpoints", "segments"):
+        J = JordanCurve.from_ctrlpoints(arch) if how == "ctrlpoints" else JordanCurve.from_segments([PlanarCurve(c) for c in arch])
+        ctx.case("coincident-control-points", how)
+        ctx.check([tuple(v) for v in J.vertices] == exp_v and len(J.vertices) == 6, "control points with equal coordinates are not listed separately", {"ctrl": arch, "constructor": how}, exp_v, [tuple(v) for v in J.vertices])
     # ---- from_full_curve for a genuinely curved closed spline (docs example style)
     kv = (0, 0, 0, 0.5, 1, 1, 1)
     cps = [Point2D(p) for p in [(0, 0), (4, 0), (0, 3), (0, 0)]]
@@ -95,6 +102,9 @@ def run(ctx):
         "missing-piece": sq[:3],
         "reversed-piece": [sq[0], [sq[1][1], sq[1][0]], sq[2], sq[3]],
         "not-closing": [[(0, 0), (2, 0)], [(2, 0), (2, 2)], [(2, 2), (0, 2)], [(0, 2), (0, 1)]],
+        "not-closing-small": [[(0, 0), (2, 0)], [(2, 0), (2, 2)], [(2, 2), (0, 2)], [(0, 2), (F(1, 1000), 0)]],
+        "single-open-segment": [[(0, 0), (1, 1), (2, 0)]],
+        "two-segments-open-at-wrap": [[(0, 0), (2, 0)], [(2, 0), (1, 1)]],
     }
     for nm, chain in bad.items():
         for how in ("ctrlpoints", "segments"):
